@@ -86,13 +86,14 @@ func c08Units(tier string) []Unit {
 			}})
 		}
 	}
+	units = append(units, c08SchedUnits(tier)...)
 	return units
 }
 
 func init() {
 	Props["C08"] = &PropMeta{
 		Units: c08Units,
-		Rule: "every sequence up to the stated depth over {committed Set/Delete/two-key transactions, transaction discarded after writes, Update whose closure fails after writes, " +
+		Rule: "(plus fine-grained scenarios: a transaction that is refused or discarded next to a long-lived reader that began at the same snapshot, followed by commits with rotation, flush, compaction and version discard; every schedule within the deviation bound; the reader must keep its snapshot and the history must be serializable without the abandoned transactions) every sequence up to the stated depth over {committed Set/Delete/two-key transactions, transaction discarded after writes, Update whose closure fails after writes, " +
 			"commit refused with a conflict (reader overtaken by a writer), Set/Delete in a read-only transaction, any call on a finished transaction, empty key, Close + View/Update on the closed handle + reopen} " +
 			"containing at least one abandoned or misuse step, with rotation on every entry / small thresholds, background lazy and eager, plus all schedules within the stated deviations for the dev plans; " +
 			"exact documented errors are required and after every step all keys are compared with a model that ignores abandoned transactions; non-trivial: a written key read off the active memtable",
